@@ -196,6 +196,32 @@ pub fn run(run: &mut Run) -> Finish {
     });
     let kmax = tier.pick(4, 5);
     let nt = t_count(kmax);
+    // long texts: the comment after 63..1030 lines of code (some longer than a read buffer), and
+    // look-alikes in front of it
+    let long_ns = [63usize, 64, 65, 129, 1030];
+    run.par_slice("long texts: 63/64/65/129/1030 code lines (every 7th a look-alike or another directive, one line of 9000 bytes) before each of the 13 menu lines, both line endings", 8, long_ns.len() as u64 * nmenu * 2, |idx, l| {
+        let k = idx & ((1 << 40) - 1);
+        let d = mixed_radix(k, &[2, nmenu, long_ns.len() as u64]);
+        let nl = if d[0] == 0 { "\n" } else { "\r\n" };
+        let n = long_ns[d[2] as usize];
+        let mut lines: Vec<String> = (0..n)
+            .map(|i| match i % 7 {
+                3 => "  //# sourceMappingURL=indented.map".to_string(),
+                5 => "//@ sourceURL=app.min.js".to_string(),
+                _ if i == 40 => "x".repeat(9000),
+                _ => format!("var v{i}={i};"),
+            })
+            .collect();
+        lines.push(LINE_MENU[d[1] as usize].to_string());
+        lines.push("tail();".to_string());
+        let text = lines.join(nl);
+        let (v, class) = check_text(&text);
+        for mut x in v {
+            x.sig = format!("{}/long-text", x.sig);
+            l.violation(idx, x);
+        }
+        l.case(class != 0, class + 1000);
+    });
     run.par_slice("maps T (<= 4/5 tokens): data URL round trip, embedded discovery, detection", 2, nt * 3, |idx, l| {
         let k = idx & ((1 << 40) - 1);
         let m = t_map(kmax, k / 3);
@@ -253,7 +279,16 @@ pub fn run(run: &mut Run) -> Finish {
 pub fn recheck(case: &Value) -> Vec<Viol> {
     let how = case["how"].as_u64().unwrap_or(0) as usize;
     match case["kind"].as_str() {
-        Some("text") => check_text(case["text"].as_str().unwrap_or("")).0,
+        Some("text") => {
+            let text = case["text"].as_str().unwrap_or("");
+            let mut v = check_text(text).0;
+            if text.len() > 500 {
+                for x in v.iter_mut() {
+                    x.sig = format!("{}/long-text", x.sig);
+                }
+            }
+            v
+        }
         Some("regular") => serde_json::from_value::<RMap>(case["model"].clone()).map(|m| check_map(&m, how).0).unwrap_or_default(),
         Some("doc") => serde_json::from_value::<RDoc>(case["doc"].clone()).map(|d| check_doc(&d, how).0).unwrap_or_default(),
         _ => vec![],
